@@ -116,3 +116,27 @@ reg("C20", "c20",
     "Bounds: list length <= 5 (quick) / 7 (thorough), page sizes -1..6/8, cursors valid/foreign/malformed/absent. gqlgen, go-git "
     "and bleve are trusted; the Go-side comparison code and TLC are trusted.",
     "DESIGN.md section 4, C20")
+
+GB_NOTE = ("Bounds of the exhaustive runs: 2-3 replicas, 1-2 bugs, <= 4-6 commits (see tlc_runs in the evidence). go-git, the "
+           "system git used by its file transport, SHA-256 and TLC are trusted. Pack ids enter the specification only through "
+           "their relative order (rank).")
+
+reg("C01", "c01",
+    "TLA+ spec GitBug.tla model-checked by TLC; TLC-generated schedules run on real replicas; recorded traces validated by TLC",
+    "TLC explores every interleaving of create/edit/push/fetch/merge/read for 2-3 replicas inside the bounds and checks that every "
+    "history git-bug builds stays readable, that equal operation sets are ordered equally and that a synchronisation fixpoint "
+    "equalises all replicas. TLC then generates schedules (plus a catalogue of diverged branches of all length pairs 0..3, "
+    "cross-merges, three replicas) that the harness runs on real go-git repositories sharing a bare remote, synchronises to "
+    "quiescence and records; TLC validates every recorded step against the specification, including that each bug.Read returns "
+    "exactly Order(ref) and that equal orders compile to equal snapshots.",
+    GB_NOTE, "DESIGN.md section 4, C01")
+
+reg("C02", "c02",
+    "TLA+ spec GitBug.tla (Merge: five scenarios) model-checked by TLC; merge results of real pulls validated by TLC as traces",
+    "TLC checks on every reachable (local, fetched) pair inside the bounds that the merge report is truthful (new / updated / "
+    "nothing / invalid iff what happened), that no operation reachable from a local ref is ever lost (action property RefsGrow), "
+    "that the remote's operations are contained afterwards and that the entity handed back is Order(ref'). The harness runs "
+    "TLC-generated and catalogue schedules on real repositories, consumes the real MergeResult stream of bug.MergeAll and logs "
+    "status, returned entity (projected operations), new commits and refs; TLC accepts a trace only if each merge event is the "
+    "specification's Merge step with exactly that status, returned entity and resulting state.",
+    GB_NOTE, "DESIGN.md section 4, C02")
